@@ -22,6 +22,7 @@ pub mod okey;
 pub mod extid;
 pub mod capi;
 pub mod capix;
+pub mod crash;
 
 pub fn all() -> Vec<StreamDef> {
     vec![
@@ -30,6 +31,7 @@ pub fn all() -> Vec<StreamDef> {
         capi::def(),
         capi::def_ryw(),
         capix::def(),
+        crash::def(),
     ]
 }
 
